@@ -189,6 +189,62 @@ def run(F, chk):
                                       "more elements are kept than the file can describe"))
     chk.floor(R2, 4)
 
+    # ---------------------------------------------------------------- R13.3
+    R3 = chk.rule("R13.3", "where the pre-write pipeline mirrors a member of the shape into another block under the same name "
+                           "(`skinPart->vertData = shape->vertData`), the copy is not made to depend on the state of the mirror itself: "
+                           "a setter that keeps the counts leaves the mirror stale, and the stale copy is what gets written")
+    fin = F.fn1("nifly::NifFile::FinalizeData")
+    n3 = 0
+    for fid in sorted(F.reachable([fin["id"]]) | {fin["id"]}):
+        fn = F.fns.get(fid)
+        if not fn or fn.get("cls") != NIF or fn.get("tmpl") == "pattern" or not fn.get("body"):
+            continue
+        mirrors = []
+        for n in walk(fn["body"]):
+            l = r = None
+            if n["k"] == "Assign" and n["op"] == "=":
+                l, r = n["l"], n["r"]
+            elif n["k"] == "OpCall" and n.get("op") == "=" and len(n.get("args", [])) == 2:
+                l, r = n["args"]
+            while is_node(r) and r["k"] == "Cast":
+                r = r["e"]
+            if is_node(l) and is_node(r) and l["k"] == "Member" and r["k"] == "Member" and l.get("name") == r.get("name") and \
+                    is_node(l.get("base")) and is_node(r.get("base")) and show(l["base"]) != show(r["base"]) and \
+                    l.get("mk", "field") == "field" and r.get("mk", "field") == "field":
+                mirrors.append((n, l))
+        if not mirrors:
+            continue
+        ids_ = {id(n) for n, _ in mirrors}
+        saved = flow.KEYNODE
+        flow.KEYNODE = {}
+        try:
+            col = flow.Collect(F, fn, lambda n: id(n) in ids_)
+            col.run()
+            reg = flow.KEYNODE
+        finally:
+            flow.KEYNODE = saved
+        lhs_of = {id(n): l for n, l in mirrors}
+        for n, sts in col.by_node():
+            l = lhs_of[id(n)]
+            tgt = show(l)
+            bad = None
+            for st in sts:
+                for f in (st or ()):
+                    if f[0] != "G":
+                        continue
+                    node = reg.get(f[1])
+                    node = node[1] if isinstance(node, tuple) and len(node) > 1 else node
+                    if is_node(node) and any(y["k"] == "Member" and show(y) == tgt for y in walk(node)):
+                        bad = f[1]
+            n3 += 1
+            chk.instance(R3, ok=bad is None, sample={"fn": fn["name"], "mirror": tgt, "copied_unconditionally_wrt_mirror": bad is None})
+            if bad is not None:
+                chk.violation("R13.3", "C13/R13.3:%s:%s" % (fn["name"], tgt), where(fn, n),
+                              "%s refreshes `%s` from the shape only depending on `%s`, a test of the mirror itself: after a "
+                              "per-vertex setter that keeps the counts the mirror is stale and the save writes the old data" % (
+                                  fn["name"], tgt, bad))
+    chk.floor(R3, 4)
+
     chk.assumptions += ["quantisation (half floats, byte colours/normals), triangle order, vertex-count preservation and save/reload "
                         "equality are value-level and NOT decided by this check"]
     chk.extra["explanation"] = ("thin partial: setter/getter storage-field agreement only (a necessary condition of read-back); "
